@@ -4,31 +4,31 @@ UNITS = [
     U("C17.aggverify_b2", ["C17"], "harness/C17/aggverify.c", "h_aggverify", defs=["C17_NBOUND=2"], bounded="n<=2",
       replace=HASH + ["secp256k1_ge_set_xo_var", "secp256k1_schnorrsig_challenge", "secp256k1_ecmult", "secp256k1_ecmult_gen", "secp256k1_gej_add_ge_var", "secp256k1_gej_add_var"],
       assumed=["secp256k1_ge_set_xo_var", "secp256k1_ecmult", "secp256k1_ecmult_gen", "secp256k1_gej_add_ge_var", "secp256k1_gej_add_var"],
-      functions=["secp256k1_schnorrsig_aggverify"], unwind=66, unwindset=["secp256k1_schnorrsig_aggverify.0:3"], timeout=900, min_obl=2400, replay=False, solver="cadical",
+      functions=["secp256k1_schnorrsig_aggverify"], unwind=66, unwindset=["secp256k1_schnorrsig_aggverify.0:3"], timeout=900, min_obl=3500, replay=False, solver="cadical", slice_formula=True,
       note="bounded stand-in of C17.aggverify: same harness and contracts, loop unwound for n <= 2 (works on /repo without the loop-contract hook)"),
     U("C17.aggverify_b3", ["C17"], "harness/C17/aggverify.c", "h_aggverify", defs=["C17_NBOUND=3"], bounded="n<=3",
       replace=HASH + ["secp256k1_ge_set_xo_var", "secp256k1_schnorrsig_challenge", "secp256k1_ecmult", "secp256k1_ecmult_gen", "secp256k1_gej_add_ge_var", "secp256k1_gej_add_var"],
       assumed=["secp256k1_ge_set_xo_var", "secp256k1_ecmult", "secp256k1_ecmult_gen", "secp256k1_gej_add_ge_var", "secp256k1_gej_add_var"],
-      functions=["secp256k1_schnorrsig_aggverify"], unwind=66, unwindset=["secp256k1_schnorrsig_aggverify.0:4"], timeout=1800, tier="thorough", min_obl=2400, replay=False, solver="cadical",
+      functions=["secp256k1_schnorrsig_aggverify"], unwind=66, unwindset=["secp256k1_schnorrsig_aggverify.0:4"], timeout=1800, tier="thorough", min_obl=3500, replay=False, solver="cadical", slice_formula=True,
       note="bounded stand-in of C17.aggverify: same harness and contracts, loop unwound for n <= 3 (works on /repo without the loop-contract hook)"),
     U("C17.inc_aggregate_b2", ["C17"], "harness/C17/inc_aggregate.c", "h_inc_aggregate", defs=["C17_NBOUND=2"], bounded="n_before+n_new<=2",
       replace=HASH + ["secp256k1_scalar_mul"], assumed=["secp256k1_scalar_mul"],
       functions=["secp256k1_schnorrsig_inc_aggregate", "secp256k1_schnorrsig_aggregate"], unwind=66,
-      unwindset=["secp256k1_schnorrsig_inc_aggregate.0:3", "secp256k1_schnorrsig_inc_aggregate.1:3", "secp256k1_schnorrsig_inc_aggregate.2:3"], timeout=900, min_obl=1800, replay=False, solver="cadical",
+      unwindset=["secp256k1_schnorrsig_inc_aggregate.0:3", "secp256k1_schnorrsig_inc_aggregate.1:3", "secp256k1_schnorrsig_inc_aggregate.2:3"], timeout=900, min_obl=1800, replay=False, solver="cadical", slice_formula=True,
       note="bounded stand-in of C17.inc_aggregate: same harness and contracts, loops unwound for n_before + n_new <= 2 (fixed-capacity objects)"),
     U("C17.inc_aggregate_b3", ["C17"], "harness/C17/inc_aggregate.c", "h_inc_aggregate", defs=["C17_NBOUND=3"], bounded="n_before+n_new<=3",
       replace=HASH + ["secp256k1_scalar_mul"], assumed=["secp256k1_scalar_mul"],
       functions=["secp256k1_schnorrsig_inc_aggregate", "secp256k1_schnorrsig_aggregate"], unwind=66,
-      unwindset=["secp256k1_schnorrsig_inc_aggregate.0:4", "secp256k1_schnorrsig_inc_aggregate.1:4", "secp256k1_schnorrsig_inc_aggregate.2:4"], timeout=1200, tier="thorough", min_obl=100, replay=False, solver="cadical",
+      unwindset=["secp256k1_schnorrsig_inc_aggregate.0:4", "secp256k1_schnorrsig_inc_aggregate.1:4", "secp256k1_schnorrsig_inc_aggregate.2:4"], timeout=1200, tier="thorough", min_obl=100, replay=False, solver="cadical", slice_formula=True,
       note="bounded stand-in of C17.inc_aggregate: same harness and contracts, loops unwound for n_before + n_new <= 3 (fixed-capacity objects)"),
     U("C17.aggverify_early", ["C17"], "harness/C17/aggverify.c", "h_aggverify", defs=["C17_EARLY"],
       replace=HASH + ["secp256k1_ge_set_xo_var", "secp256k1_schnorrsig_challenge", "secp256k1_ecmult", "secp256k1_ecmult_gen", "secp256k1_gej_add_ge_var", "secp256k1_gej_add_var"],
-      functions=["secp256k1_schnorrsig_aggverify"], unwind=66, unwindset=["secp256k1_schnorrsig_aggverify.0:1"], timeout=600, min_obl=2300, replay=False, solver="cadical",
+      functions=["secp256k1_schnorrsig_aggverify"], unwind=66, unwindset=["secp256k1_schnorrsig_aggverify.0:1"], timeout=600, min_obl=2300, replay=False, solver="cadical", slice_formula=True,
       note="length / NULL gates for EVERY n and every length (exact-size objects): inputs restricted to those the specification rejects before the loop; entering the loop fails the unwinding assertion"),
     U("C17.inc_aggregate_early", ["C17"], "harness/C17/inc_aggregate.c", "h_inc_aggregate", defs=["C17_EARLY"],
       replace=HASH + ["secp256k1_scalar_mul"],
       functions=["secp256k1_schnorrsig_inc_aggregate", "secp256k1_schnorrsig_aggregate"], unwind=66,
-      unwindset=["secp256k1_schnorrsig_inc_aggregate.0:1", "secp256k1_schnorrsig_inc_aggregate.1:1", "secp256k1_schnorrsig_inc_aggregate.2:1"], timeout=600, min_obl=100, replay=False, solver="cadical",
+      unwindset=["secp256k1_schnorrsig_inc_aggregate.0:1", "secp256k1_schnorrsig_inc_aggregate.1:1", "secp256k1_schnorrsig_inc_aggregate.2:1"], timeout=600, min_obl=100, replay=False, solver="cadical", slice_formula=True,
       note="count-overflow / NULL / buffer-too-small gates for EVERY n_before, n_new, length (exact-size objects): inputs restricted to those the specification rejects before the first loop; entering a loop fails the unwinding assertion"),
 ]
 
